@@ -109,14 +109,20 @@ def enabled(cfg):
 CONFIGS = {}
 
 CONFIGS['rooms'] = dict(
-    transports=['t1', 't2', 't3'], ns_h=['/', '/a'], ns_all=['/', '/a', '/x'],
-    ns_api=['/', '/a', '/x'], max_sid=3, rooms=['r1', 'r2', 's1'],
+    transports=['t1', 't2'], ns_h=['/', '/a'], ns_all=['/', '/a', '/x'],
+    ns_api=['/', '/a'], max_sid=3, rooms=['r1', 's1'],
+    emit_to=[('none', []), ('one', ['r1']), ('one', ['s1']),
+             ('one', ['s3']), ('list', ['r1', 's1']), ('list', ['r1', 'r1']),
+             ('list', ['s2', 'r1', 's3'])],
+    emit_skip=[('none', []), ('one', ['s1']), ('list', ['s1', 's2'])],
+    alpha='rooms')
+# three rooms, one namespace
+CONFIGS['rooms3'] = dict(
+    transports=['t1', 't2', 't3'], ns_h=['/'], ns_all=['/', '/x'],
+    ns_api=['/'], max_sid=3, rooms=['r1', 'r2', 's1'],
     emit_to=[('none', []), ('one', ['r1']), ('one', ['r2']), ('one', ['s1']),
-             ('one', ['s2']), ('one', ['s3']), ('list', ['r1', 'r2']),
-             ('list', ['r1', 's1']), ('list', ['r1', 'r1']),
-             ('list', ['r2', 's2', 'r1'])],
-    emit_skip=[('none', []), ('one', ['s1']), ('one', ['s2']),
-               ('list', ['s1', 's2']), ('list', ['s3'])],
+             ('list', ['r1', 'r2']), ('list', ['r2', 's2', 'r1'])],
+    emit_skip=[('none', []), ('one', ['s2']), ('list', ['s1', 's3'])],
     alpha='rooms')
 
 CONFIGS['rooms_quick'] = dict(
